@@ -144,6 +144,8 @@ func (c *Ctx) multiReaderParts(fn *ssa.Function) (parts []ssa.Value, inLoop []bo
 func inLoopBlock(fn *ssa.Function, b *ssa.BasicBlock) bool { return inLoop(fn, b) }
 
 func checkC01(c *Ctx) {
+	c.rulePartSearch("J5.parts")
+	c.R.Floor("J5.parts", 1)
 	fn := c.Fn("J1.layout", "authenticode.Parse")
 	if fn == nil {
 		return
@@ -894,4 +896,131 @@ func leBytesAt(v ssa.Value) (buf ssa.Value, off int64, width int, ok bool) {
 		seen[p.idx] = true
 	}
 	return base, lo, len(parts), true
+}
+
+// rulePartSearch (J5): the concatenating reader starts a read at offset off in
+// the first part whose end lies strictly beyond off. A search that also stops
+// at a part ending exactly at off selects a part that contributes no byte; the
+// read then returns (0, EOF) at a part boundary and a copy loop ends there, so
+// the bytes behind that boundary are silently left out of the digest.
+func (c *Ctx) rulePartSearch(rule string) {
+	fn := c.Fn(rule, "authenticode.(*multi).ReadAt")
+	if fn == nil {
+		return
+	}
+	offP := paramByType(fn, "int64")
+	what := "a read at offset off starts in the first part whose end is strictly greater than off"
+	var search *ssa.Call
+	for _, f := range withAnon(fn) {
+		instrsOf(f, func(i ssa.Instruction) {
+			if call, ok := i.(*ssa.Call); ok {
+				switch id := ir.CallID(call); {
+				case id == "sort.Search" || strings.HasPrefix(id, "slices.BinarySearchFunc") || strings.HasPrefix(id, "slices.BinarySearch") || strings.HasPrefix(id, "slices.IndexFunc"):
+					search = call
+				}
+			}
+		})
+	}
+	if search == nil || offP == nil {
+		c.R.Infof(rule, name(fn), "part-search", c.Pos(fn.Pos()), "not decided for this shape: the part for an offset is not located with sort.Search / slices.BinarySearchFunc")
+		return
+	}
+	// the closure handed to the search
+	var pred *ssa.Function
+	for _, a := range search.Call.Args {
+		switch x := ir.StripConv(a).(type) {
+		case *ssa.MakeClosure:
+			pred, _ = x.Fn.(*ssa.Function)
+		case *ssa.Function:
+			pred = x
+		}
+	}
+	rets := []*ssa.Return{}
+	if pred != nil {
+		rets = ir.Returns(pred)
+	}
+	if pred == nil || len(rets) != 1 || len(rets[0].Results) != 1 {
+		c.R.Infof(rule, name(fn), "part-search", c.IPos(search), "not decided for this shape: the search predicate is not a single-expression function literal")
+		return
+	}
+	res := rets[0].Results[0]
+	// end := part.off + part.Size(); the other operand is the offset (parameter or free variable bound to it)
+	isOff := func(v ssa.Value) bool {
+		v = ir.StripConv(v)
+		if v == ssa.Value(offP) {
+			return true
+		}
+		if fv, ok := v.(*ssa.FreeVar); ok {
+			b := ir.FreeVarBinding(fv)
+			if b == ssa.Value(offP) {
+				return true
+			}
+			// captured by reference: the cell the parameter was spilled to
+			if a, isA := b.(*ssa.Alloc); isA {
+				for _, r := range *a.Referrers() {
+					if st, isSt := r.(*ssa.Store); isSt && st.Val == ssa.Value(offP) {
+						return true
+					}
+				}
+			}
+		}
+		if ld, ok := v.(*ssa.UnOp); ok && ld.Op == token.MUL {
+			if fv, isFV := ld.X.(*ssa.FreeVar); isFV {
+				if a, isA := ir.FreeVarBinding(fv).(*ssa.Alloc); isA {
+					for _, r := range *a.Referrers() {
+						if st, isSt := r.(*ssa.Store); isSt && st.Val == ssa.Value(offP) {
+							return true
+						}
+					}
+				}
+			}
+		}
+		if p, ok := v.(*ssa.Parameter); ok && p.Parent() == pred && types.Identical(p.Type(), offP.Type()) {
+			return true // the target handed through the search (BinarySearchFunc)
+		}
+		return false
+	}
+	isEnd := func(v ssa.Value) bool {
+		bo, ok := ir.StripConv(v).(*ssa.BinOp)
+		if !ok || bo.Op != token.ADD {
+			return false
+		}
+		hasOff, hasSize := false, false
+		for _, side := range []ssa.Value{bo.X, bo.Y} {
+			if strings.HasSuffix(ir.FieldID(side), ".off") {
+				hasOff = true
+			}
+			if call, isC := ir.StripConv(side).(ssa.CallInstruction); isC && call.Common().IsInvoke() && call.Common().Method.Name() == "Size" {
+				hasSize = true
+			}
+		}
+		return hasOff && hasSize
+	}
+	id := ir.CallID(search)
+	switch {
+	case id == "sort.Search":
+		bo, ok := res.(*ssa.BinOp)
+		switch {
+		case ok && bo.Op == token.GTR && isEnd(bo.X) && isOff(bo.Y), ok && bo.Op == token.LSS && isOff(bo.X) && isEnd(bo.Y):
+			c.R.Okf(rule, name(fn), "part-search", c.IPos(search), what)
+		case ok && (bo.Op == token.GEQ && isEnd(bo.X) && isOff(bo.Y) || bo.Op == token.LEQ && isOff(bo.X) && isEnd(bo.Y)):
+			c.R.Violf(rule, name(fn), "part-search", c.IPos(search), what, "the predicate is end >= off: a part that ends exactly at off is selected although it contributes no byte, the read returns 0 bytes and EOF at that boundary and the rest of the image is not hashed")
+		default:
+			c.R.Infof(rule, name(fn), "part-search", c.IPos(search), "not decided for this shape: the search predicate is not a comparison of part.off+part.Size() with the offset")
+		}
+	case strings.HasPrefix(id, "slices.BinarySearchFunc"):
+		// finds the first element e with cmp(e, target) >= 0
+		call, ok := res.(*ssa.Call)
+		if ok && strings.HasPrefix(ir.CallID(call), "cmp.Compare") && isEnd(call.Call.Args[0]) && isOff(call.Call.Args[1]) {
+			// target off: first part with end >= off — the non-strict form
+			tgt := search.Call.Args[1]
+			if ir.StripConv(tgt) == ssa.Value(offP) {
+				c.R.Violf(rule, name(fn), "part-search", c.IPos(search), what, "the binary search returns the first part with end >= off: a part that ends exactly at off is selected although it contributes no byte, the read returns 0 bytes and EOF at that boundary and the rest of the image is not hashed")
+				return
+			}
+		}
+		c.R.Infof(rule, name(fn), "part-search", c.IPos(search), "not decided for this shape: the comparison function of the binary search is not evaluated")
+	default:
+		c.R.Infof(rule, name(fn), "part-search", c.IPos(search), "not decided for this shape: "+id)
+	}
 }
